@@ -162,5 +162,103 @@ theorem negative_year_not_tsOK (ts : Ts) (h : (Time.civilAt ts.ns ts.offset).1 <
     timestamps that do not print re-parsably (the fixed-offset form of F13) -/
 example : Time.resolveTs ⟨5989, (0, 0, 0, 0)⟩ ⟨1900, 1, 1, none, none⟩ = .ok ⟨-2208994789000000000, 5989⟩ := by decide
 
+/-! ## 1. `RawLex` of the parser's output -/
+
+theorem rawPostingLex_of {rp : RawPosting} (h : PostLex rp) : RawPostingLex rp :=
+  ⟨h.acct, h.amount, h.unit, h.comment⟩
+
+theorem metaWF_of (m : Option TxnMeta) (hm : ∀ x, m = some x → TxnMetaWF x)
+    (ts : Ts) (code desc : Option String) (comments : Option (List String)) :
+    MetaWF ⟨ts, code, desc, metaUuid m, metaLocation m, metaTags m, comments⟩ := by
+  cases m with
+  | none => exact ⟨(fun _ e => by cases e), (fun _ e => by cases e), (fun _ e => by cases e)⟩
+  | some x =>
+    have := hm x rfl
+    exact ⟨this.uuid, this.location, this.tags⟩
+
+/-- **header**: what `parse_txn_header` returns is a well-formed header with a re-parsable timestamp -/
+theorem parseTxnHeader_ok_wf (cfg : Time.TsCfg) (hcfg : CfgOK cfg) {s r : List Char} {h : Header}
+    (hp : parseTxnHeader cfg s = .ok h r) : TsOK h.ts = true ∧ HeaderWF h := by
+  unfold parseTxnHeader at hp
+  obtain ⟨ts, s1, hts, hp⟩ := (Res.bind_ok _ _ _ _).mp hp
+  obtain ⟨code, s2, hcode, hp⟩ := (Res.bind_ok _ _ _ _).mp hp
+  obtain ⟨desc, s3, hdesc, hp⟩ := (Res.bind_ok _ _ _ _).mp hp
+  obtain ⟨_, s4, _, hp⟩ := (Res.bind_ok _ _ _ _).mp hp
+  obtain ⟨m, s5, hm, hp⟩ := (Res.bind_ok _ _ _ _).mp hp
+  obtain ⟨comments, s6, hcs, hp⟩ := (Res.bind_ok _ _ _ _).mp hp
+  cases hp
+  refine ⟨parseTimestamp_tsOK cfg hcfg s s1 ts hts, ?_, ?_, ?_, ?_⟩
+  · intro c hc
+    simp only at hc
+    subst hc
+    rcases opt_ok hcode with ⟨x, e, hx⟩ | ⟨e, _⟩
+    · cases e
+      obtain ⟨_, t1, _, h1⟩ := (Res.bind_ok _ _ _ _).mp hx
+      exact parseTxnCode_ok_wf _ _ _ h1
+    · cases e
+  · intro d hd
+    simp only at hd
+    subst hd
+    rcases opt_ok hdesc with ⟨x, e, hx⟩ | ⟨e, _⟩
+    · cases e
+      obtain ⟨_, t1, _, h1⟩ := (Res.bind_ok _ _ _ _).mp hx
+      exact parseTxnDescription_ok_wf _ _ _ h1
+    · cases e
+  · apply metaWF_of
+    intro x hx
+    subst hx
+    rcases opt_ok hm with ⟨y, e, hy⟩ | ⟨e, _⟩
+    · cases e; exact parseTxnMeta_ok_wf hy
+    · cases e
+  · intro cs hc
+    simp only at hc
+    subst hc
+    rcases opt_ok hcs with ⟨y, e, hy⟩ | ⟨e, _⟩
+    · cases e
+      exact repeat1_all parseTxnComment (fun c => LineText c.toList) (fun _ _ _ e => parseTxnComment_ok_lineText e) hy
+    · cases e
+
+/-- **transaction**: what `parse_txn` returns satisfies `RawLex` -/
+theorem parseTxn_rawLex (cfg : Time.TsCfg) (hcfg : CfgOK cfg) {s r : List Char} {t : RawTxn}
+    (hp : parseTxn cfg s = .ok t r) : RawLex t := by
+  unfold parseTxn at hp
+  obtain ⟨h, s1, hh, hp⟩ := (Res.bind_ok _ _ _ _).mp hp
+  obtain ⟨ps, s2, hps, hp⟩ := (Res.bind_ok _ _ _ _).mp hp
+  obtain ⟨_, s3, _, hp⟩ := (Res.bind_ok _ _ _ _).mp hp
+  cases hp
+  obtain ⟨hts, hhw⟩ := parseTxnHeader_ok_wf cfg hcfg (cutErr_ok hh)
+  obtain ⟨_, hall, hlast⟩ := parseTxnPostings_ok_wf (ps := ps.1) (last := ps.2) (cutErr_ok hps)
+  exact ⟨hts, hhw, fun rp hrp => rawPostingLex_of (hall rp hrp), hlast⟩
+
+/-- **`RawLex` of the parser's output.**  Every parse tree `Syntax.parseJournal` produces from a text is lexically
+    well-formed, and there is at least one (`repeat_till(1.., …)`).  This is the hypothesis `hlex` of
+    `roundtrip_accepted`, now a theorem for journals that come from text. -/
+theorem parseJournal_rawLex (cfg : Time.TsCfg) (hcfg : CfgOK cfg) (text : List Char) (rs : List RawTxn)
+    (hp : parseJournal cfg text = some rs) : rs ≠ [] ∧ ∀ r ∈ rs, RawLex r := by
+  unfold parseJournal at hp
+  split at hp
+  · rename_i ts hts
+    cases hp
+    unfold parseTxns at hts
+    obtain ⟨_, s1, _, h1⟩ := (Res.bind_ok _ _ _ _).mp hts
+    exact repeatTill1_all (parseTxn cfg) eof RawLex (fun _ _ _ e => parseTxn_rawLex cfg hcfg e) h1
+  · cases hp
+  · cases hp
+  · cases hp
+
+/-- **C06 `roundtrip_text`.**  `roundtrip_accepted` for journals that come from text: parse a journal text, accept it,
+    print the accepted transactions in any layout of the family, load that text — the result is the originally loaded
+    (sorted) list and state.  No lexical hypothesis is left; what remains assumed is the contract of the abstract
+    division `div` (see `roundtrip_text_divQuot` for the model's own division) and that the journal zone is a fixed
+    offset of whole minutes (`CfgOK`; otherwise F13). -/
+theorem roundtrip_text (cfg : Time.TsCfg) (hcfg : CfgOK cfg) (L : Layout) (hL : LayoutOK L) (div : Dec → Dec → Dec)
+    (st st' : Settings) (text : List Char) (rs : List RawTxn) (ts : List Txn)
+    (hparse : parseJournal cfg text = some rs) (hacc : acceptJournal st rs = .ok (ts, st'))
+    (hdw : ∀ t ∈ ts, ∀ p ∈ t.posts, p.isTotal = false → NumWF (div p.txnAmount p.amount))
+    (hdiv : ∀ t ∈ ts, ∀ p ∈ t.posts, DivExact div p) :
+    loadText cfg st (printL L div ts) = loadJournal st rs := by
+  obtain ⟨hne, hlex⟩ := parseJournal_rawLex cfg hcfg text rs hparse
+  exact roundtrip_accepted cfg L hL div st st' rs ts hacc hne hlex hdw hdiv
+
 end C06
 end Tackler
